@@ -249,10 +249,15 @@ pub fn check_server_string(js: &str, concat: &[MTsDef], detail: &serde_json::Val
     let raw = extract_template(js).map_err(|e| fail("server-module-malformed", e, ""))?;
     let sdl = crate::tsmini::cook_template(&raw).map_err(|e| fail("server-module-malformed", e, ""))?;
     let got = crate::refparse::parse_ts_doc(&sdl).map_err(|e| fail("server-sdl-unparsable", format!("the evaluated template is not valid SDL: {e:?}"), &sdl))?;
+    // nitrogql-only directives: @nitrogql_ts_type always; @model (definition injected by the model plugin,
+    // applications on objects and fields) - a generated schema never defines a @model of its own
     let mut expected: Vec<MTsDef> = concat.to_vec();
     for d in expected.iter_mut() {
         if let MTsDef::Type(t) | MTsDef::TypeExt(t) = d {
-            t.directives.retain(|d| d.name != "nitrogql_ts_type");
+            t.directives.retain(|d| d.name != "nitrogql_ts_type" && d.name != "model");
+            for f in t.fields.iter_mut() {
+                f.directives.retain(|d| d.name != "model");
+            }
         }
     }
     let reference = ref_merge(&expected);
@@ -265,8 +270,8 @@ pub fn check_server_string(js: &str, concat: &[MTsDef], detail: &serde_json::Val
         match d {
             MTsDef::SchemaExt(_) | MTsDef::TypeExt(_) => return Err(fail("server-sdl-has-extension", "an `extend` item survives in the server schema".into(), &sdl)),
             MTsDef::Directive(dd) => {
-                if dd.name == "nitrogql_ts_type" {
-                    return Err(fail("nitrogql-directive-survives", "directive @nitrogql_ts_type is still defined".into(), &sdl));
+                if dd.name == "nitrogql_ts_type" || dd.name == "model" {
+                    return Err(fail("nitrogql-directive-survives", format!("directive @{} is still defined", dd.name), &sdl));
                 }
                 if SPEC_DIRECTIVES.contains(&dd.name.as_str()) && !user_directive(&dd.name) {
                     continue;
@@ -458,6 +463,14 @@ fn server_cli_case(case: &mut Case, base: &std::path::Path) -> CaseResult {
         gp.layout.server_graphql_output = Some("generated/server-schema.ts".into());
         gp.config.push_str("      serverGraphqlOutput: \"generated/server-schema.ts\"\n");
     }
+    // the model plugin (built in, no Node needed) injects `directive @model(type: String) on OBJECT |
+    // FIELD_DEFINITION`; neither the definition nor its applications belong in the server schema
+    let model_plugin = case.ch.chance(1, 3);
+    let mut apply_model = model_plugin && case.ch.chance(1, 2);
+    if model_plugin {
+        gp.config = gp.config.replace("  nitrogql:\n", "  nitrogql:\n    plugins:\n      - \"nitrogql:model-plugin\"\n");
+        case.label("model-plugin");
+    }
     // hostile strings subject to the known-finding flags: re-render the schema files
     let mut tame = tame_strings(case);
     let mut with_directive = case.ch.chance(1, 2);
@@ -472,6 +485,20 @@ fn server_cli_case(case: &mut Case, base: &std::path::Path) -> CaseResult {
                         });
                         with_directive = false;
                         case.label("nitrogql-directive-stripped");
+                        break;
+                    }
+                }
+            }
+        }
+        if apply_model {
+            // @model on a field of a non-root object type that is defined (not extended) in this file
+            let roots: Vec<String> = [OpType::Query, OpType::Mutation, OpType::Subscription].iter().filter_map(|o| gp.gs.schema.root(*o)).collect();
+            for d in f.iter_mut() {
+                if let MTsDef::Type(t) = d {
+                    if t.kind == Kind::Object && !roots.contains(&t.name) && !t.fields.is_empty() {
+                        t.fields[0].directives.push(MDirective { name: "model".into(), args: vec![] });
+                        apply_model = false;
+                        case.label("model-directive-applied");
                         break;
                     }
                 }
@@ -506,7 +533,7 @@ pub fn run(env: &Env) -> i32 {
     let mut rep = Report::new(
         env,
         "exploration",
-        "part B (round trip): abstract operation / type-system documents from the syntactic generator (every production, hostile strings) rendered canonically, parsed by nitrogql, printed by GraphQLPrinter, re-parsed; oracle: converted models equal. Non-trivial: a string needing escapes (quote, backslash, backtick, ${, newline), a variable default, an #import, a schema extension or an extension with only directives; distinct = text. Part A (server schema string): valid generated schemas (hostile descriptions, deprecation reasons and default strings, extensions spread over files, custom directives, a scalar carrying @nitrogql_ts_type) are checked, the serverGraphqlOutput module is produced (in-process replica of generate.rs and through the built CLI), its template literal is evaluated with ECMAScript TV rules, parsed with the reference SDL parser and compared per (kind,name) with the reference merge minus the nitrogql-only directive; spec built-in scalars/directives may be listed. Non-trivial there: template escapes, merged extensions or a stripped nitrogql directive.",
+        "part B (round trip): abstract operation / type-system documents from the syntactic generator (every production, hostile strings) rendered canonically, parsed by nitrogql, printed by GraphQLPrinter, re-parsed; oracle: converted models equal. Non-trivial: a string needing escapes (quote, backslash, backtick, ${, newline), a variable default, an #import, a schema extension or an extension with only directives; distinct = text. Part A (server schema string): valid generated schemas (hostile descriptions, deprecation reasons and default strings, extensions spread over files, custom directives, a scalar carrying @nitrogql_ts_type) are checked, the serverGraphqlOutput module is produced (in-process replica of generate.rs and through the built CLI), its template literal is evaluated with ECMAScript TV rules, parsed with the reference SDL parser and compared per (kind,name) with the reference merge minus the nitrogql-only directives (@nitrogql_ts_type; with the built-in model plugin enabled in a third of the CLI cases, @model and its applications); spec built-in scalars/directives may be listed; an omitted schema definition is accepted exactly when the default-name rule gives the same root types. Non-trivial there: template escapes, merged extensions or a stripped nitrogql directive.",
     );
     rep.assume("the second parse uses nitrogql's own parser (the statement is about nitrogql's print/parse pair); the first parse is cross-checked against the generated model");
     let probe_op = |text: &'static str| {
